@@ -131,7 +131,8 @@ def generate(rng, config):
         else:
             v, ok = _explicit(rng, kind, n, M)
             args[comp] = {"mode": "explicit", "value": v, "valid": ok,
-                          "as": rng.choice(["list", "list", "tuple"])}
+                          "as": rng.choice(["list", "list", "tuple", "iter",
+                                            "generator", "range"])}
     case["args"] = args
     strat = rng.choice([None, None, None, "identity", "reverse", "low",
                         "high", "mix", "repeat"])
@@ -246,7 +247,12 @@ def execute(case, ctx):
     def conv(a):
         if a["mode"] != "explicit":
             return a["mode"]
-        return tuple(a["value"]) if a["as"] == "tuple" else list(a["value"])
+        v = list(a["value"])
+        if a["as"] == "range" and v and v == list(range(v[0], v[0] +
+                                                        len(v))):
+            return range(v[0], v[0] + len(v))
+        return {"tuple": tuple, "iter": iter,
+                "generator": lambda x: (y for y in x)}.get(a["as"], list)(v)
 
     with installed(sim), open_router(fs):
         if entry == "lib":
@@ -310,6 +316,16 @@ def execute(case, ctx):
                             exc_signature(res[1], REPO),
                             "%s\n%r" % (where, res[1]))
         ctx.nontrivial = True
+        return
+    oneshot = [k for k, a in args.items() if a["mode"] == "explicit"
+               and a["as"] in ("iter", "generator")]
+    if oneshot:
+        ctx.fault("one_shot_iterable_argument")
+    if res[0] == "exc" and oneshot and isinstance(res[1], TypeError):
+        # the description speaks of lists / sequences, the parameter list
+        # of iterables: refusing a one-shot iterator loudly is tolerated,
+        # applying it wrongly is not
+        ctx.note("gray: one-shot iterable refused with TypeError")
         return
     if res[0] == "exc":
         raise Violation("C09/exception/%s" % exc_signature(res[1], REPO),
